@@ -408,7 +408,9 @@ pub fn check(
                         )
                     };
                     if unchanged {
-                        v.push(viol(&["C15"], "I15.1-notwritten", step, msg));
+                        // (C16 too: for the in-place front-ends the text they "yield" is what the
+                        // file holds afterwards, and that is not the library's text for these options)
+                        v.push(viol(&["C15", "C16"], "I15.1-notwritten", step, msg));
                     } else {
                         v.push(viol(&["C15", "C16"], "I15.1-written", step, msg));
                     }
